@@ -12,6 +12,7 @@ import fcntl
 import hashlib
 import json
 import os
+import shutil
 import random
 import re
 import signal
@@ -639,13 +640,24 @@ class Check:
         if r.ok and self.tier == "thorough":
             # independent re-check of the compiled closure (coqchk) + its own axiom listing
             mod = "PTK." + props_v[:-2].replace("/", ".")
-            # not under the build lock (it can take minutes); a concurrent rebuild of a shared .vo
-            # can make it fail spuriously, so a failure is retried once under the lock
-            rc, out = run(["coqchk", "-silent", "-o", "-Q", ".", "PTK", mod], cwd=COQ, timeout=1800)
-            if rc != 0:
-                with BuildLock():
-                    run(["make", "-j4", props_v[:-2] + ".vo"], cwd=COQ, timeout=COQ_TIMEOUT)
-                    rc, out = run(["coqchk", "-silent", "-o", "-Q", ".", "PTK", mod], cwd=COQ, timeout=1800)
+            # coqchk takes minutes, so it must neither hold the build lock nor be disturbed by a
+            # concurrent rebuild of a shared .vo: under the lock the target is brought up to date and
+            # the compiled files (.vo only, a few tens of MB) are copied to a private directory;
+            # coqchk then re-checks that copy with the lock released.
+            snap = os.path.join(BUILD, "coqchk-%d" % os.getpid())
+            shutil.rmtree(snap, ignore_errors=True)
+            with BuildLock():
+                run(["make", "-j4", props_v[:-2] + ".vo"], cwd=COQ, timeout=COQ_TIMEOUT)
+                for root, _dirs, files in os.walk(COQ):
+                    for fn in files:
+                        if fn.endswith(".vo"):
+                            dst = os.path.join(snap, os.path.relpath(root, COQ))
+                            os.makedirs(dst, exist_ok=True)
+                            shutil.copy2(os.path.join(root, fn), os.path.join(dst, fn))
+            try:
+                rc, out = run(["coqchk", "-silent", "-o", "-Q", ".", "PTK", mod], cwd=snap, timeout=3600)
+            finally:
+                shutil.rmtree(snap, ignore_errors=True)
             m = re.search(r"\* Axioms:(.*?)\n\s*\n\* Constants", out, re.S)
             axioms = " ".join(m.group(1).split()) if m else "(not parsed)"
             self.coverage["coqchk"] = {"cmd": "coqchk -silent -o -Q . PTK " + mod, "rc": rc, "axioms": axioms,
